@@ -32,7 +32,8 @@ RULE = ("case = session on one state object (kind [positive: no bases; complex/d
         "all-Z row (optionally also user-registered letters of 1-2 characters, state built with unitary_dict=, incl. a row that is all Z but one "
         "site) as C-order / Fortran-order / strided-view array; call form: the first j = 1..15 documented parameters positionally, the rest by "
         "keyword, k and starting_epoch varied; data object and bases object of a later call: new / the same "
-        "object again / the same object overwritten in place); covers N < B, N = mB, N = mB + r; thorough enumerates single calls "
+        "object again / the same object overwritten in place; in multi-epoch calls optionally the caller's data object overwritten in place from an "
+        "on_epoch_end callback of a non-final epoch while fit is running); covers N < B, N = mB, N = mB + r; thorough enumerates single calls "
         "N <= 12 x B <= 13 x neg in {None, B, other}; plus a malformed stream (B = 0, no reference-basis row, bases of the wrong "
         "length, also as the second call of a session: outside the quantifier, informational counters only) and direct `_shuffle_data` calls "
         "(verdict only for num_batches = ceil(N/B), the only value fit passes; other values informational); ARGUMENT FORMS (stream `aseed` of every "
@@ -200,53 +201,28 @@ def canon(keys):
     return [seen.setdefault(k, len(seen)) for k in keys]
 
 
-# ------------------------------------------------------------------ independent numpy/itertools oracle of the property
-def property_oracle(data, bases, B, negB_eff, mirror, ep):
-    """ep = {"perm", "negIdx", "batches": [(pos, neg, basesbatch|None)]}; returns (ok, detail)"""
+# ------------------------------------------------------------------ are the recorded draws USED the way the model uses them?
+def used_as_modelled(data, bases, mirror, ep):
+    """ep = {"perm", "negIdx", "randint", "batches": [(pos, neg, basesbatch|None)]}. True iff the positive rows, in batch order, are the data
+    re-indexed by THE recorded permutation and the negative rows are z_samples[recorded randint] (without bases: data[recorded randint], or the
+    positive batch itself when the sizes are equal). HOW a draw is turned into batches is not constrained by the property (an inverse permutation,
+    a flipped index vector, ... are as good): this only decides whether the model - which takes the draws as inputs - can be compared batch by batch."""
     N = len(data)
     perm = ep["perm"]
-    if sorted(perm) != list(range(N)):
-        return False, "randperm result is not a permutation"
-    nb = -(-N // B)
-    bt = ep["batches"]
-    if len(bt) != nb:
-        return False, f"{len(bt)} batches, expected ceil({N}/{B}) = {nb}"
-    sizes = [len(p) for p, _, _ in bt]
-    if sizes[:-1] != [B] * (nb - 1) or sizes[-1] != N - (nb - 1) * B or not (1 <= sizes[-1] <= B):
-        return False, f"batch sizes {sizes}"
-    flat = [tuple(r) for p, _, _ in bt for r in p]
-    if collections.Counter(flat) != collections.Counter(tuple(r) for r in data):
-        return False, "positive batches are not a permutation (as a multiset) of the data rows"
+    if perm is None or sorted(perm) != list(range(N)):
+        return False
+    flat = [tuple(r) for p, _, _ in ep["batches"] for r in p]
     if flat != [tuple(data[i]) for i in perm]:
-        return False, "positive batches are not the perm-reindexed data"
+        return False
+    negs = [tuple(r) for _, ng, _ in ep["batches"] for r in ng]
     if bases is not None:
-        flatb = [tuple(r) for _, _, bb in bt for r in bb]
-        if [len(bb) for _, _, bb in bt] != sizes:
-            return False, "bases batch sizes differ from sample batch sizes"
-        pairs = collections.Counter(zip(flat, flatb))
-        if pairs != collections.Counter((tuple(d), tuple(b)) for d, b in zip(data, bases)):
-            return False, "some row is not paired with its own basis row"
-        zrows = {tuple(d) for d, b in zip(data, bases) if all(c == "Z" for c in b)}
+        if any(bb is None for _, _, bb in ep["batches"]) or [tuple(r) for _, _, bb in ep["batches"] for r in bb] != [tuple(bases[i]) for i in perm]:
+            return False  # (a pairing that is wrong in effect is reported by the effect oracle)
         zlist = [tuple(d) for d, b in zip(data, bases) if all(c == "Z" for c in b)]
-        for _, ng, _ in bt:
-            if len(ng) != negB_eff or any(tuple(r) not in zrows for r in ng):
-                return False, "negative batch not neg_batch_size reference-basis rows"
-        if any(not (0 <= i < len(zlist)) for i in ep["negIdx"]):
-            return False, "randint drew outside the reference-basis rows (z_samples is not the list of all-Z rows)"
-        if [tuple(r) for _, ng, _ in bt for r in ng] != [zlist[i] for i in ep["negIdx"]]:
-            return False, "negative rows are not z_samples[randint result]"
-    else:
-        allrows = {tuple(r) for r in data}
-        for p, ng, bb in bt:
-            if bb is not None:
-                return False, "bases batch without bases"
-            if any(tuple(r) not in allrows for r in ng):
-                return False, "negative row is not a training row"
-            if mirror and ng != p:
-                return False, "negative batch does not mirror the positive batch"
-            if not mirror and len(ng) != negB_eff:
-                return False, "negative batch size"
-    return True, None
+        return all(0 <= i < len(zlist) for i in ep["negIdx"]) and negs == [zlist[i] for i in ep["negIdx"]]
+    if ep["randint"] is None:
+        return mirror and negs == flat
+    return all(0 <= i < N for i in ep["negIdx"]) and negs == [tuple(data[i]) for i in ep["negIdx"]]
 
 
 def effect_oracle(data, bases, B, negB_eff, mirror, batches):
@@ -355,7 +331,7 @@ def bound_config(ctx, wire):
 
 
 # ------------------------------------------------------------------ one session = consecutive fit calls on one state object
-RUN_KEYS = ("N", "B", "neg", "epochs", "form", "data", "bases", "malformed", "defaults", "npos", "k", "start", "bases_form")
+RUN_KEYS = ("N", "B", "neg", "epochs", "form", "data", "bases", "malformed", "defaults", "npos", "k", "start", "bases_form", "scribble")
 
 
 def as_session(case):
@@ -438,7 +414,24 @@ def one_call(ctx, case, st, kind, run, r_idx, state):
     err = None
     from qucumber.callbacks import LambdaCallback
 
-    marks = LambdaCallback(on_epoch_start=lambda s_, e_: rec.log.append(("epoch", int(e_))))
+    # "fit works on the data it was GIVEN": after one of the epochs (not the last) the caller overwrites its own data object in place (a buffer
+    # re-used for the next acquisition); every later epoch must still batch the rows that were handed to fit. The caller's write is the caller's:
+    # the no-mutation oracle compares fit's part only (before the write: as handed over; at return: as the caller left it)
+    scr = {"epoch": run.get("scribble"), "done": False, "possible": None, "pre": None, "post": None}
+    start_ep = run.get("start", 1)
+
+    def after_epoch(s_, e_):
+        if scr["epoch"] is None or scr["done"] or int(e_) != start_ep + scr["epoch"]:
+            return
+        scr["done"] = True
+        scr["pre"] = snapshot(data_obj)
+        new_rows = [[1 - int(x) for x in data[0]] for _ in range(N)]  # every row := complement of row 0: another multiset of rows than the data
+        scr["possible"] = overwrite(data_obj, new_rows)
+        scr["post"] = snapshot(data_obj)
+        if scr["possible"]:
+            state["data"] = new_rows  # what the caller's object holds from now on
+
+    marks = LambdaCallback(on_epoch_start=lambda s_, e_: rec.log.append(("epoch", int(e_))), on_epoch_end=after_epoch)
     rec.install()
     pos_args, kw_args, wire = call_arguments(kind, run, data_obj, bases_obj, [marks], ctx)
     try:
@@ -486,9 +479,12 @@ def one_call(ctx, case, st, kind, run, r_idx, state):
             en = ep["rng"][1]
             ep["negIdx"] = en[3]
             ep["randint"] = [en[1], en[2][0] if en[2] else 0]
-    scripted = bool(eps) and all(ep["as_modelled"] for ep in eps)
     negB_eff = neg if neg else B
     mirror = bases is None and negB_eff == B
+    drawn = bool(eps) and all(ep["as_modelled"] for ep in eps)
+    # ... and are the draws USED as the model uses them (batches = data[perm] in order, negatives = z_samples[randint])? Neither is constrained by the
+    # property; both only decide whether the batch-by-batch comparison with the model (which takes the draws as inputs) is meaningful
+    scripted = drawn and all(used_as_modelled(data, bases, mirror, ep) for ep in eps)
     if N >= 2 and any([r for p_, _, _ in ep["batches"] for r in p_] != [list(map(int, r)) for r in data] for ep in eps):
         state["nontriv"] = True
     if state["perm0"] is None and eps:
@@ -518,20 +514,15 @@ def one_call(ctx, case, st, kind, run, r_idx, state):
         ctx.oracle("one pass over the data per requested epoch (epochs starting_epoch..epochs)", len(eps) == epochs, case,
                    detail={"epochs_run": len(eps), "requested": epochs, "starting_epoch": run.get("start", 1)}, sig=f"{sig}/epochs",
                    theorem="C07_positional_call")
-        ctx.count("random draws consumed as modelled (one randperm, at most one randint per epoch)" if scripted else
-                  "random draws NOT consumed as modelled: scripted comparison with the model skipped, verdict from the effect oracle")
+        ctx.count("random draws consumed and used as modelled (one randperm, at most one randint per epoch; batches = data[perm], negatives = z[randint])"
+                  if scripted else ("random draws consumed as modelled but USED differently" if drawn else "random draws NOT consumed as modelled")
+                  + ": batch-by-batch comparison with the model skipped, verdict from the effect oracle")
         for e_i, ep in enumerate(eps):
             # the property judged by effect (no reference to the random draws)
             ok, detail = effect_oracle(data, bases, B, negB_eff, mirror, ep["batches"])
             ctx.oracle("epoch batches satisfy the property (by effect: partition with own bases, sizes, negative rows from the allowed pool)", ok,
                        {**case, "epoch": e_i}, detail=detail, sig=f"{sig}/property", theorem="C07_partition, C07_own_basis, C07_sizes, C07_negative")
-            if not scripted:
-                continue
-            # sharper restatement available when the draws are consumed as modelled: the batches are the data re-indexed by THE recorded permutation
-            ok, detail = property_oracle(data, bases, B, negB_eff, mirror, ep)
-            ctx.oracle("epoch batches are the data re-indexed by the recorded permutation / z_samples[recorded randint]", ok, {**case, "epoch": e_i}, detail=detail,
-                       sig=f"{sig}/property", theorem="C07_partition, C07_own_basis, C07_sizes, C07_negative")
-            if ep["randint"] is not None:
+            if ep["as_modelled"] and ep["randint"] is not None:
                 high, size = ep["randint"]
                 ctx.oracle("randint result in range", len(ep["negIdx"]) == size and all(0 <= i < high for i in ep["negIdx"]), case,
                            sig=f"{sig}/randint-range")
@@ -541,7 +532,12 @@ def one_call(ctx, case, st, kind, run, r_idx, state):
         handed = sum(len(ng) for ep in eps for _, ng, _ in ep["batches"])
         ctx.oracle("bases supplied without a reference-basis row: no negative-phase row may be handed out (there is no admissible one)", handed == 0, case,
                    detail={"negative_rows_handed_out": handed, "raised": err}, sig=f"{sig}/negative-not-refbasis", theorem="C07_negative, C07_refbasis")
-    ctx.oracle("caller's data unchanged (bytes, identity, dtype)", after_d == snap_d, case, sig=f"{sig}/no-mutation-data", theorem="C07_no_mutation")
+    if scr["done"]:
+        ctx.count("caller overwrites its data object in place after an epoch of the running fit: " + ("done" if scr["possible"] else "not possible (immutable container)"))
+        ctx.oracle("caller's data unchanged by fit (bytes, identity, dtype): as handed over until the caller's own write, as the caller left it at return",
+                   scr["pre"] == snap_d and after_d == scr["post"], case, sig=f"{sig}/no-mutation-data", theorem="C07_no_mutation")
+    else:
+        ctx.oracle("caller's data unchanged (bytes, identity, dtype)", after_d == snap_d, case, sig=f"{sig}/no-mutation-data", theorem="C07_no_mutation")
     ctx.oracle("caller's bases unchanged", after_b == snap_b, case, sig=f"{sig}/no-mutation-bases", theorem="C07_no_mutation")
     # informational only: the property says the caller's objects are never MODIFIED (checked above, bytes + identity); whether a
     # batch is a view of the caller's storage is an implementation choice the property text does not constrain
@@ -556,11 +552,15 @@ def one_call(ctx, case, st, kind, run, r_idx, state):
         # itself is judged by the effect oracles above (so the verdict is "no failing input found" unless one of them fails).
         if not ctx.__dict__.get("_c07_noted"):
             ctx._c07_noted = True
-            ctx.note("C07: the implementation does not consume torch.randperm/torch.randint as the model scripts it; the model comparison is skipped "
+            ctx.note("C07: the implementation does not consume / use torch.randperm/torch.randint as the model scripts it; the model comparison is skipped "
                      "for such runs and the verdict comes from the effect oracles evaluated on the batches actually consumed")
-            ctx.point("random draws consumed as the model scripts them (one randperm(N), then at most one randint per epoch)", "aux",
-                      [[en[0] for en in ep["rng"]][:6] for ep in eps][:3], [["perm"], ["perm", "randint"]], case, exact=True,
-                      sig=f"{kind}/rng-not-consumed-as-modelled", theorem="C07_fit_batches")
+            if not drawn:
+                ctx.point("random draws consumed as the model scripts them (one randperm(N), then at most one randint per epoch)", "aux",
+                          [[en[0] for en in ep["rng"]][:6] for ep in eps][:3], [["perm"], ["perm", "randint"]], case, exact=True,
+                          sig=f"{kind}/rng-not-consumed-as-modelled", theorem="C07_fit_batches")
+            else:
+                ctx.point("recorded draws used as the model uses them (positive rows = data[randperm result] in batch order, negative rows = "
+                          "z_samples[randint result])", "aux", False, True, case, exact=True, sig=f"{kind}/rng-not-used-as-modelled", theorem="C07_fit_batches")
         return
     # the configuration as the MODEL's binder derives it from the call as written (positional prefix in the documented order + keywords +
     # documented defaults; C07_positional_call): the batching model below is fed THESE values
@@ -678,6 +678,16 @@ def one_direct(ctx, case):
         if "error" in m:
             ctx.point("model error on a direct call with fit's arguments", "aux", err, m.get("error"), case, exact=True, sig=f"{sig}/error")
         return
+    ep_d = {"perm": perm, "negIdx": negIdx, "randint": (True if any(en[0] == "randint" for en in rec.log) else None),
+            "batches": [(b_["pos"], b_["neg"], b_["bases"]) for b_ in impl_b]}
+    if not used_as_modelled(data, bases, bases is None and negB == B, ep_d):
+        # the draws are USED differently (not constrained by the property; the effect oracle above has judged the batches): ONE auxiliary point per run
+        ctx.count("direct: recorded draws used differently from the model (model comparison skipped)")
+        if not ctx.__dict__.get("_c07_noted"):
+            ctx._c07_noted = True
+            ctx.point("recorded draws used as the model uses them (positive rows = data[randperm result] in batch order, negative rows = "
+                      "z_samples[randint result])", "aux", False, True, case, exact=True, sig=f"{kind}/rng-not-used-as-modelled", theorem="C07_fit_batches")
+        return
     ctx.point("direct _shuffle_data batches (by value)", "aux", impl_b, m["batches"], case, exact=True, sig=f"{sig}/batches",
               theorem="C07_partition, C07_own_basis, C07_sizes, C07_negative")
 
@@ -740,6 +750,8 @@ def gen_run(rng, kind, n, N, B, negmode, letters=None, npos=None):
     data, bases = gen_data(rng, kind, n, N, letters=letters)
     run = {"N": N, "B": B, "neg": neg, "epochs": rng.choice([1, 2, 2, 3]), "form": rng.choice(FORMS), "data": data, "bases": bases,
            "bases_form": rng.choice(BASES_FORMS), "aseed": af.new_seed(rng)}
+    if run["epochs"] >= 2 and rng.random() < 0.6:
+        run["scribble"] = rng.randrange(run["epochs"] - 1)  # after this epoch (0-based within the call) the caller overwrites its data object in place
     # call form: how many leading documented parameters are given positionally (1 = data only); with a positional call the integer
     # arguments are made pairwise different where possible (so that no two documented positions can be exchanged unnoticed)
     nparams = len(DOC_ORDER[kind != "pos"])
@@ -851,8 +863,56 @@ def gen_cases(ctx, thorough):
              "malformed": "bases-too-long"}]})
 
 
+def info_probes(ctx):
+    """INFORMATIONAL counters only (no verdict of any level), see notes/C07.md "Final pass" and proposed/O23_C07_bases_live.md:
+    (1) does a running fit read the caller's BASES array live (an in-place edit made by the caller after an epoch reaches later epochs)?
+        The property's container clause and "the training data" are about `data`; the bases argument is documented as numpy.ndarray and the
+        code keeps a reference to it.  (2) bases handed over in containers other than the documented ndarray."""
+    import random
+    from qucumber.callbacks import LambdaCallback
+
+    rng = random.Random(12345)
+    st = make_state("cplx", 2, rng)
+    data = [[0, 1], [1, 1], [0, 0], [1, 0]]
+    bases = np.array([["Z", "Z"], ["X", "Z"], ["Z", "Z"], ["Z", "Y"]])
+    seen, ep_now = [], [0]
+    orig = type(st).compute_batch_gradients.__get__(st)
+
+    def cbg(k, samples_batch, neg_batch, bases_batch=None):
+        seen.append((ep_now[0], bases_rows(bases_batch) if bases_batch is not None else None))
+        return orig(k, samples_batch, neg_batch, bases_batch)
+
+    def after(s_, e_):
+        if e_ == 1:
+            bases[...] = "Y"
+
+    st.compute_batch_gradients = cbg
+    try:
+        with contextlib.redirect_stderr(io.StringIO()), contextlib.redirect_stdout(io.StringIO()):
+            st.fit(torch.tensor(data, dtype=torch.double), epochs=2, pos_batch_size=2, k=1, lr=0.01, input_bases=bases, progbar=False,
+                   callbacks=[LambdaCallback(on_epoch_start=lambda s_, e_: ep_now.__setitem__(0, e_), on_epoch_end=after)])
+        later = [r for e_, bb in seen if e_ == 2 and bb for r in bb]
+        ctx.count("info: caller edits its bases array after epoch 1 of a running fit -> epoch 2 pairs the rows with "
+                  + ("the EDITED bases (fit keeps a reference to the caller's array)" if later and all(r == ["Y", "Y"] for r in later) else "the bases handed to fit"))
+    except Exception as e:  # informational
+        ctx.count(f"info: bases-edit probe raised {type(e).__name__}")
+    finally:
+        del st.compute_batch_gradients
+    base_rows = [["Z", "Z"], ["X", "Z"], ["Z", "Z"], ["Z", "Y"]]
+    for name, obj in (("list of lists", [list(r) for r in base_rows]), ("tuple of tuples", tuple(tuple(r) for r in base_rows)),
+                      ("list of strings", ["".join(r) for r in base_rows])):
+        st2 = make_state("cplx", 2, rng)
+        try:
+            with contextlib.redirect_stderr(io.StringIO()), contextlib.redirect_stdout(io.StringIO()):
+                st2.fit(torch.tensor(data, dtype=torch.double), epochs=1, pos_batch_size=2, k=1, lr=0.01, input_bases=obj, progbar=False)
+            ctx.count(f"info: input_bases given as {name} (documented type: numpy.ndarray): accepted")
+        except Exception as e:
+            ctx.count(f"info: input_bases given as {name} (documented type: numpy.ndarray): raises {type(e).__name__}")
+
+
 def run(ctx):
     ctx.rule = RULE
+    info_probes(ctx)
     for what, case in gen_cases(ctx, ctx.tier == "thorough"):
         (one_fit if what == "fit" else one_direct)(ctx, {**case, "what": what})
 
